@@ -59,7 +59,7 @@ CHECKS['C20'] = dict(
 
 CHECKS['C05'] = dict(
     technique='TLA+ derivation-set oracle with priority sums (MaxPrio/MinPrio over all derivations, empty-alternative precedence) evaluated by TLC on every real ambiguity=resolve result, obtained in fresh processes under several PYTHONHASHSEED values',
-    text='For every grammar (ambiguous templates, F_bnf, F_rand with random signed rule and terminal priorities), mode normal/invert/None and lexer basic/dynamic, TLC enumerates all derivations (EBNF.tla), computes their total priorities and judges the tree the real lark returned: it is a derivation, its priority is the maximum (minimum under invert) for grammars without directly empty alternatives, an empty alternative is used only where no non-empty one matches, priority=None returns what the priority-free grammar returns, and the tree is identical across 5 (quick) / 32 (thorough) hash seeds in separate processes, repeated calls and a second instance. Resolve.tla specifies the resolver itself (ForestSumVisitor's priority cascade and the packed-node sort key on the forest of EarleyForest.tla): TLC proves on all ambiguous instances of the bounded family and all priority assignments that the result is a derivation and, without empty rules, priority-optimal - and refutes optimality with empty rules, which is the exemption the reading makes. An overlapping-terminal family (A AB AA B BA with random terminal and rule priorities) makes terminal priorities decisive under the dynamic lexers: optimality is judged over the union of the derivations of all tokenisations.',
+    text='For every grammar (ambiguous templates, F_bnf, F_rand with random signed rule and terminal priorities), mode normal/invert/None and lexer basic/dynamic, TLC enumerates all derivations (EBNF.tla), computes their total priorities and judges the tree the real lark returned: it is a derivation, its priority is the maximum (minimum under invert) for grammars without directly empty alternatives, an empty alternative is used only where no non-empty one matches, priority=None returns what the priority-free grammar returns, and the tree is identical across 5 (quick) / 16 (thorough) hash seeds in separate processes, repeated calls and a second instance. Resolve.tla specifies the resolver itself (the priority cascade of ForestSumVisitor and the packed-node sort key on the forest of EarleyForest.tla): TLC proves on all ambiguous instances of the bounded family and all priority assignments that the result is a derivation and, without empty rules, priority-optimal - and refutes optimality with empty rules, which is the exemption the reading makes. An overlapping-terminal family (A AB AA B BA with random terminal and rule priorities) makes terminal priorities decisive under the dynamic lexers: optimality is judged over the union of the derivations of all tokenisations.',
     note='hash-seed independence sampled, not proved; single-character terminals (terminal priorities add a constant per input)',
     ref='6/C05')
 
